@@ -174,6 +174,8 @@ def run_case(case, obs=None):
         for p in problems:
             out.append(("prout/length/%s" % p.split(",")[0].split(" ")[0][:24], "%s: %s" % (where, p)))
         for k, v in items.items():
+            if sa == 7 and k in ("spec_i_pt", "all_tg_pt"):
+                continue          # flags of the basic list, not applicable to REGISTER AND MOVE: ignored (the list must simply stay well-formed)
             if k in d and d[k] != v:
                 out.append(("prout/%s/%s" % ("move" if sa == 7 else "basic", k), "%s: %s=%r in the list, supplied %r" % (where, k, d[k], v)))
             elif k not in d and k not in ("transport_ids", "transport_id"):
@@ -408,6 +410,12 @@ def gen(part, tier):
                     yield ["prout", sa, vals, []]
             for flags in itertools.product((0, 1), repeat=2):
                 if sa == 7:
+                    # one parameter dictionary kept by the caller for REGISTER and for REGISTER AND MOVE: the basic-list flags ride along
+                    for extra in ({"all_tg_pt": 1}, {"spec_i_pt": 1}, {"all_tg_pt": 1, "spec_i_pt": 1}):
+                        yield ["prout", sa, dict({"reservation_key": 1, "service_action_reservation_key": 2, "unreg": flags[0], "aptpl": flags[1],
+                                                  "relative_target_port_id": 2}, **extra), [3]]
+                        yield ["prout", sa, dict({"reservation_key": 1, "service_action_reservation_key": 2, "unreg": flags[0], "aptpl": flags[1],
+                                                  "relative_target_port_id": 2}, **extra), []]
                     for rtpi in (0, 1, 0x8000, 0xFFFF):
                         yield ["prout", sa, {"reservation_key": 1, "service_action_reservation_key": 2, "unreg": flags[0], "aptpl": flags[1],
                                              "relative_target_port_id": rtpi}, [3]]
